@@ -11,7 +11,12 @@ for d in p["items"]:
         obs.append(implementedBy(type(d["name"], (object,), {"__module__": d["module"]})))
 # going through a set first makes the pre-sort order depend on hashes (seed / addresses)
 pre = sorted(obs, key=hash)
-res = sorted(pre)
+try:
+    res = sorted(pre)
+except Exception as e:  # noqa  -- sorting specifications must never fail; report it as data
+    _boot.write_result({"input_keys": [[o.__name__, o.__module__] for o in obs], "sorted_keys": None,
+                        "error": type(e).__name__ + ": " + str(e)})
+    raise SystemExit(0)
 # stable order of equal keys depends on 'pre'; only the key sequence is process independent
 _boot.write_result({"input_keys": [[o.__name__, o.__module__] for o in obs],
                     "sorted_keys": [[o.__name__, o.__module__] for o in res]})
